@@ -113,6 +113,8 @@ fn translate_block(
     endian: Endian,
     options: &Options,
 ) -> Result<BlockTranslationResult, Error> {
+    crate::translator::ensure_block_fits_address_space(address, bytes.len())?;
+
     let mode = match endian {
         Endian::Big => capstone::CS_MODE_32 | capstone::CS_MODE_BIG_ENDIAN,
         Endian::Little => capstone::CS_MODE_32 | capstone::CS_MODE_LITTLE_ENDIAN,
